@@ -134,6 +134,9 @@ def _counter():
 
 
 CURATED = [
+    [("blockx", "xpad", 4, [("list", "vs", "sint", 2, 0)]), ("nbits", "tail", 5)],
+    [("nbits", "head", 3), ("blockx", "xpad", 6, [("sint", "s1"), ("uint", "u1")]), ("align", "apad", None)],
+    [("blockx", "xpad", 0, [("uint", "u0")]), ("bool", "b")],
     [("listsub", "items", [[("nbits", "a", 3), ("block", "pad", 6, [("nbits", "b", 4)], 2)], [("nbits", "a", 3), ("block", "pad", 6, [("nbits", "b", 4)], 2)]], True)],
     [("sub", "outer", [("sub", "inner", [("uint", "v")], True), ("list", "vs", "sint", 3, 0)], True), ("computed", "note", "x")],
     [("nbits", "x", 3), ("align", "pad", 5), ("bytes", "data", 2), ("uint", "u"), ("sint", "s")],
@@ -191,6 +194,10 @@ def _run(serdes, ops, typed_seen=None):
         elif k == "block":
             with serdes.bounded_block(op[1], op[2]):
                 _run(serdes, op[3], typed_seen)
+        elif k == "blockx":
+            # a bounded block that may be *shorter* than its exp-Golomb content (padding target left to its zero default)
+            with serdes.bounded_block(op[1], op[2]):
+                _run(serdes, op[3], typed_seen)
         elif k == "sub":
             with serdes.subcontext(op[1]):
                 if op[3]:
@@ -236,10 +243,13 @@ def _describe(ops, val):
         elif k == "computed":
             pass
         elif k == "align":
-            d[op[1]] = val("bitarray", op[2])
+            d[op[1]] = val("bitarray", op[2] or 0)
         elif k == "block":
             d.update(_describe(op[3], val))
             d[op[1]] = val("bitarray", op[4])
+        elif k == "blockx":
+            d.update(_describe(op[3], val))
+            d[op[1]] = val("bitarray", 0)  # zero-padded by the writer to whatever is left
         elif k == "sub":
             d[op[1]] = _describe(op[2], val)
         elif k == "list":
@@ -357,8 +367,14 @@ def _check_program(ops, val, choose, prove, prove_eq, fail, part):
 
     desc = _describe(ops, val)
     # (1) round trip
+    dynamic = [op[1] for op in ops if op[0] == "blockx" or (op[0] == "align" and op[2] is None)]
     try:
         f, ser = _serialise(ops, _copy(desc))
+    except ValueError as e:
+        if dynamic and "past the end of a bounded block" in str(e):
+            return  # a 0 bit beyond a too-short block must fail loudly: that is the documented behaviour
+        fail("complete-description-does-not-serialise", [type(e).__name__, str(e)[:100]])
+        return
     except Exception as e:  # noqa
         fail("complete-description-does-not-serialise", [type(e).__name__, str(e)[:100]])
         return
@@ -369,7 +385,14 @@ def _check_program(ops, val, choose, prove, prove_eq, fail, part):
         return
     expect = _with_computed(desc, ops)
     bad = []
-    _leaf_eq(prove_eq, _plain(back), expect, "", bad)
+    got = _plain(back)
+    for t in dynamic:
+        # padding left to its default: whatever length was needed, all zeros
+        pad = list(got.pop(t, []))
+        expect.pop(t, None)
+        for i, b in enumerate(pad):
+            prove_eq(b, 0, ".%s[%d]" % (t, i))
+    _leaf_eq(prove_eq, got, expect, "", bad)
     if bad:
         fail("description-differs-after-round-trip", bad[:3])
     prove(_typed_consistent(ser.context, ops), "serialiser-context-types-consistent")
@@ -433,7 +456,7 @@ def _with_computed(desc, ops):
             d[op[1]] = _with_computed(desc[op[1]], op[2])
         elif op[0] == "listsub":
             d[op[1]] = [_with_computed(x, inner) for x, inner in zip(desc[op[1]], op[2])]
-        elif op[0] == "block":
+        elif op[0] in ("block", "blockx"):
             d.update(_with_computed({k: v for k, v in desc.items()}, op[3]))
     return d
 
